@@ -130,7 +130,7 @@ def build_words(spec):
 
 
 _BUILD = {'dfa': build_dfa, 'nfa': build_nfa, 'pda': build_pda, 'tm': build_tm, 'cfg': build_cfg,
-          'regexp': build_regexp, 'words': build_words}
+          'regexp': build_regexp, 'words': build_words, 'set': lambda spec: _set(spec['items'])}
 
 
 # ------------------------------------------------------------------ snapshot
